@@ -172,6 +172,7 @@ class E2Run:
             entropy_seed=a.get("entropy_seed", seams.derive(self.seed, "entropy")),
             clock_script=a.get("clock") if a.get("clock") is not None else seams.clock_script_for(self.seed, a.get("clock_kind", "auto")),
             id_width=a.get("id_width", "mixed"),
+            rng_seed=seams.derive(self.seed, "global_rng"),
             logging_on=False,
         )
         violation = None
